@@ -103,6 +103,16 @@ def handle1 (op0 : String) (args : List Sexp) : Option String := do
   | "fillna-a2", [x, ms, lim] =>
       let cs ← colsOfVal (← Val.ofSexp x); let ms ← methodsOf ms; let lim ← limitOf lim
       pure (reply (fillnaArr ms lim cs) fun cs => .list (cs.map colToVal))
+  -- 2-d inputs WITHOUT columns: a DataFrame over the labels / an (n, 0) array; the reply is the surviving labels / the row count
+  | "fillna-df0", [x, ms, lim] =>
+      let ts ← TS.ofVal (← Val.ofSexp x); let ms ← methodsOf ms; let lim ← limitOf lim
+      pure (reply (fillna ms lim { idx := ts.index, cols := [] }) fun f => TS.toVal (f.idx.map fun t => (t, Option.none)))
+  | "fillna-a0", [n, ms, lim] =>
+      let n ← limitOf n; let ms ← methodsOf ms; let lim ← limitOf lim
+      pure (reply (fillna ms lim { idx := (List.range (n.getD 0)).map Int.ofNat, cols := [] }) fun f => .cell (.int f.idx.length))
+  | "nona-df0", [x, e] =>
+      let ts ← TS.ofVal (← Val.ofSexp x); let e ← edgeOf e
+      pure (reply (nona e { idx := ts.index, cols := [] }) fun f => TS.toVal (f.idx.map fun t => (t, Option.none)))
   | "nona-s", [x, e] =>
       let ts ← TS.ofVal (← Val.ofSexp x); let e ← edgeOf e
       pure (reply (nona e (ofTS ts)) fun f => TS.toVal (toTS f))
